@@ -950,13 +950,21 @@ func encReturnedBytes(r *hx.Result) {
 		var prevSize int
 		for _, size := range []int{10, 300, 460, 500, 700, 900, 950, 40, 1000, 20, 1500, 30, 800, 5000, 600, 610} {
 			e := &log.Event{Level: log.InfoLevel, Time: time.Unix(1e9, 0).UTC(), File: "f.go", Line: 1, Tag: "_t",
-				Fields: []log.Field{log.Int("id", int64(size)), log.String("pad", strings.Repeat(string(rune('a'+size%26)), size))}}
+				Fields: []log.Field{log.Int("id", int64(size)), log.String("pad", strings.Repeat(string(rune('a'+size%26)), size)),
+					log.Ints("arr", []int64{1, 2, 3}), log.Object("obj", log.String("k", "v")), log.Int("end", 1)}}
 			var b []byte
 			if p := hx.Catch(func() { b = lay.ToBytes(e) }); p != nil {
 				r.Violate("layout-panic", map[string]any{"size": size}, "ToBytes panicked: %v", p)
 				return
 			}
 			r.Eval(1)
+			// nested values keep being written, also after lines that were larger than the reuse cap
+			wantTail := []string{`"arr":[1,2,3],"obj":{"k":"v"},"end":1}`, `arr=[1,2,3]||obj={"k":"v"}||end=1`}[li]
+			if !strings.HasSuffix(strings.TrimSuffix(string(b), "\n"), wantTail) {
+				r.Violate("nested-values-lost", map[string]any{"layout": []string{"json", "text"}[li], "pad": size, "previous_pad": prevSize, "bufferCap": 1024},
+					"line ends %s, want %s", clip(string(b[max(0, len(b)-80):]), 100), wantTail)
+				return
+			}
 			if prev != nil && !bytes.Equal(prev, prevCopy) {
 				r.Violate("returned-line-mutated", map[string]any{"layout": []string{"json", "text"}[li], "previous_pad": prevSize, "next_pad": size, "bufferCap": 1024},
 					"the line returned for the previous event (%d bytes) changed while the next event was formatted: now %s", len(prevCopy), clip(string(prev), 120))
